@@ -97,6 +97,7 @@ CaseOK(e) ==
   /\ e.same_stream /\ e.same_file /\ e.len_buffer > 0
   /\ e.rebuffer_fresh                                      \* print_to_buffer on a buffer target starts an empty buffer
   /\ e.reread_same                                         \* reading the buffer does not empty it
+  /\ e.clone_same                                          \* a copy of the info object (Clone) reads the same log
   /\ e.two_solves_same                                     \* after a second solve buffer and stream both hold both logs
   /\ e.same_short_stream                                   \* a stream accepting a few bytes per call gets every byte
   /\ e.len_quiet_buffer = 0 /\ e.len_quiet_stream = 0 /\ e.len_after_sink = 0
